@@ -262,6 +262,11 @@ pub fn run_kv(ops: &[KvOp], stack_filter: Option<usize>) -> CaseRes {
         }
         Ok(())
     })();
+    // a backend operation that aborts violates the contract just like a wrong answer
+    let res = match res {
+        Err(Fail::Panic { op, msg }) => viol("C17", format!("backend operation {} aborted: {}", op, msg)),
+        x => x,
+    };
     CaseRes { counters: cnt, nontrivial, result: res, log, steps }
 }
 
